@@ -108,3 +108,71 @@ Proof.
   unfold connect_many_to_one. split; [rewrite map_map; simpl; apply map_id|].
   intros c H. apply in_map_iff in H as (s & <- & _). reflexivity.
 Qed.
+
+(* ---- completion: the capacity assertion `max_i >= 0` can never fire when the precondition holds (repair of F3) ---- *)
+Fixpoint cap (m : nat) (pool : list nat) (acc : list (nat * nat)) : nat :=
+  match pool with [] => 0 | d :: r => (m - count d acc) + cap m r acc end.
+Lemma count_cons_other s d0 x acc : x <> d0 -> count x ((s, d0) :: acc) = count x acc.
+Proof. intros H. simpl. destruct (Nat.eqb_spec d0 x); [congruence|reflexivity]. Qed.
+Lemma count_cons_same s d0 acc : count d0 ((s, d0) :: acc) = S (count d0 acc).
+Proof. simpl. rewrite Nat.eqb_refl. reflexivity. Qed.
+Lemma cap_other m pool s d0 acc : ~ In d0 pool -> cap m pool ((s, d0) :: acc) = cap m pool acc.
+Proof.
+  induction pool as [|d r IH]; intros H; [reflexivity|]. cbn [cap].
+  rewrite count_cons_other by (intros ->; apply H; left; reflexivity). rewrite IH by (intros K; apply H; right; exact K). reflexivity.
+Qed.
+Lemma cap_step m pool s d0 acc : NoDup pool -> In d0 pool -> count d0 acc < m ->
+  cap m pool ((s, d0) :: acc) + 1 = cap m pool acc.
+Proof.
+  induction pool as [|d r IH]; intros Hnd Hin Hc; [destruct Hin|]. inversion Hnd; subst. cbn [cap].
+  destruct Hin as [->|Hin].
+  - rewrite count_cons_same. rewrite cap_other by assumption. lia.
+  - rewrite count_cons_other by (intros ->; contradiction). rewrite <- (IH H2 Hin Hc). lia.
+Qed.
+Lemma cap_remove1 m pool d0 acc : NoDup pool -> In d0 pool ->
+  cap m (remove1 d0 pool) acc + (m - count d0 acc) = cap m pool acc.
+Proof.
+  induction pool as [|d r IH]; intros Hnd Hin; [destruct Hin|]. inversion Hnd; subst. cbn [remove1 cap].
+  destruct (Nat.eqb_spec d d0) as [->|Hne]; [lia|].
+  destruct Hin as [E|Hin]; [congruence|]. cbn [cap]. rewrite <- (IH H2 Hin). lia.
+Qed.
+
+Lemma rand_loop_no_assert m choices : forall src pool acc, 0 < m -> NoDup pool ->
+  (forall d, In d pool -> count d acc < m) -> length src <= cap m pool acc ->
+  rand_loop choices src pool (Some m) acc <> RAssert.
+Proof.
+  induction choices as [|i ch IH]; intros src pool acc Hm Hnd Hp Hcap; destruct src as [|s src']; cbn [rand_loop]; try discriminate.
+  - destruct pool; [simpl in Hcap; lia|discriminate].
+  - destruct pool as [|p0 pool']; [simpl in Hcap; lia|].
+    destruct (nth_error (p0 :: pool') i) as [d0|] eqn:E; [|discriminate].
+    apply nth_error_In in E.
+    remember ((s, d0) :: acc) as acc' eqn:Eacc.
+    assert (C0 : count d0 acc' = S (count d0 acc)) by (subst acc'; apply count_cons_same).
+    assert (Cother : forall x, x <> d0 -> count x acc' = count x acc) by (intros x Hx; subst acc'; apply count_cons_other; exact Hx).
+    assert (Hstep : cap m (p0 :: pool') acc' + 1 = cap m (p0 :: pool') acc) by (subst acc'; apply cap_step; auto).
+    apply IH; [exact Hm| | |].
+    + destruct (Nat.leb m (count d0 acc')); [apply nodup_remove1|]; assumption.
+    + intros x Hx. destruct (Nat.leb_spec m (count d0 acc')) as [Hfull|Hnot].
+      * assert (x <> d0) by (intros ->; eapply remove1_notin; eauto). rewrite Cother by assumption. apply Hp. eapply in_remove1; eauto.
+      * destruct (Nat.eq_dec x d0) as [->|Hne]; [lia|]. rewrite Cother by assumption. apply Hp. exact Hx.
+    + cbn [length] in Hcap. destruct (Nat.leb_spec m (count d0 acc')) as [Hfull|Hnot].
+      * pose proof (cap_remove1 m (p0 :: pool') d0 acc' Hnd E). specialize (Hp d0 E). lia.
+      * lia.
+Qed.
+(* with the precondition of the helper, the call never trips the internal assertion, for every choice sequence *)
+Theorem randomly_never_asserts choices src dest m : 0 < m -> NoDup dest ->
+  connect_randomly_uneven choices src dest (Some m) <> RAssert.
+Proof.
+  intros Hm Hnd. unfold connect_randomly_uneven. destruct (Nat.leb_spec (length src) (length dest * m)) as [H|H]; simpl; [|discriminate].
+  apply rand_loop_no_assert; auto.
+  assert (G : forall l, cap m l [] = length l * m) by (induction l as [|d r IHl]; simpl; [reflexivity|rewrite IHl; lia]).
+  rewrite G. exact H.
+Qed.
+Lemma rand_loop_inf_no_assert choices : forall src pool acc, pool <> [] -> rand_loop choices src pool None acc <> RAssert.
+Proof.
+  induction choices as [|i ch IH]; intros src pool acc Hp; destruct src as [|s src']; cbn [rand_loop]; try discriminate.
+  - destruct pool; [congruence|discriminate].
+  - destruct pool as [|p0 pool']; [congruence|]. destruct (nth_error (p0 :: pool') i); [|discriminate]. apply IH. discriminate.
+Qed.
+Theorem randomly_unbounded_never_asserts choices src dest : dest <> [] -> connect_randomly_uneven choices src dest None <> RAssert.
+Proof. intros H. unfold connect_randomly_uneven. apply rand_loop_inf_no_assert. exact H. Qed.
